@@ -34,7 +34,10 @@ def run_variant(m):
                     return "EDIT-FAILED", "old text not found in " + e["file"]
             s = s[:idx] + e["new"] + s[idx + len(e["old"]):]
             open(p, "w").write(s)
-            pkgs.add("./" + os.path.dirname(e["file"]))
+            if e["file"].endswith(".go"):
+                pkgs.add("./" + os.path.dirname(e["file"]))
+            else:  # go.mod and the like: build one main package
+                pkgs.add("./amd/samples/fir")
         b = subprocess.run(["go", "build"] + sorted(pkgs), cwd=repo, env=ENV, capture_output=True, text=True)
         if b.returncode != 0:
             return "DOES-NOT-BUILD", b.stderr[:400]
